@@ -2,17 +2,50 @@
    process; compared per call: the returned array (or "an exception was raised"). *)
 From Coq Require String.
 From CPL Require Import Model.Base Model.Rules Model.Engine Model.Evolve2D Model.Memo2D.
+Local Open Scope Z_scope.
 
-Inductive case := CProc (calls : list call2d) (obs : list (res (list grid))).
+(* CProc: the rule callables are the families of Model/Rules.v, their results are integers of the dtype.
+   CProcNeg: the `floatret/neg` stream.  The Python rule returns the NON-INTEGRAL float  -(q) - frac  (0 < frac < 1,
+   q >= 0 the value of the Lin/Aff family member named in the call) into an INTEGER automaton; every engine writes
+   it with NumPy's truncating cast (toward zero), i.e. stores -q (the memoize=True table keeps the float and the cast
+   happens at the same assignment).  So the arrays are those of the rule "negated family member" with store = identity.
+   (The `floatret/pos` stream returns q + frac, stored as q: it is a plain CProc.) *)
+Inductive case :=
+| CProc (calls : list call2d) (obs : list (res (list grid)))
+| CProcNeg (calls : list call2d) (obs : list (res (list grid))).
 
 Definition arr_of_result (r : call2d_result) : res (list grid) :=
   match r with Ok (_, a) => Ok a | Raise e => Raise e end.
 
+Definition neg_rule (rule : rule2 nat) : rule2 nat :=
+  fun s n c t => let '(s', v) := rule s n c t in (s', - v).
+
+(* run_call2d of Model/Memo2D.v with the negated rule *)
+Definition run_call2d_neg (c : call2d) : call2d_result :=
+  let rule := logged2 (neg_rule (spec_rule2 (c2_rule c))) in
+  match c2_ts c with
+  | TFixed T =>
+      match evolve2d_fixed rule store_id (c2_memo c) (c2_r c) (c2_ty c) (0%nat, []) (c2_hist c) T with
+      | Ok ((_, lg), a) => Ok (lg, a)
+      | Raise e => Raise e
+      end
+  | TLt k =>
+      dyn_result (evolve2d_dynamic rule store_id (pred_lt k) (c2_memo c) (c2_r c) (c2_ty c) (k + 2) tt (0%nat, []) (c2_hist c))
+  | TScript bs =>
+      dyn_result (evolve2d_dynamic rule store_id (pred_script bs) (c2_memo c) (c2_r c) (c2_ty c) (length bs + 2) 0%nat (0%nat, []) (c2_hist c))
+  | TUntilFixedLt k =>
+      dyn_result (evolve2d_dynamic rule store_id (pred_ufp_lt k) (c2_memo c) (c2_r c) (c2_ty c) (k + 2) tt (0%nat, []) (c2_hist c))
+  end.
+
 (* what the model computes for each call of the process: the model of the call's own mode *)
 Definition model_out (c : case) : list (res (list grid)) :=
-  match c with CProc calls _ => map arr_of_result (run_process2d calls) end.
+  match c with
+  | CProc calls _ => map arr_of_result (run_process2d calls)
+  | CProcNeg calls _ => map (fun cl => arr_of_result (run_call2d_neg cl)) calls
+  end.
 
-Definition observed (c : case) : list (res (list grid)) := match c with CProc _ o => o end.
+Definition observed (c : case) : list (res (list grid)) :=
+  match c with CProc _ o | CProcNeg _ o => o end.
 
 (* the property names no exception class ("the mode is selected by the option's value"): any
    exception on both sides agrees *)
